@@ -387,6 +387,20 @@ def run(tier, seed):
         if ip != mp and not lm.startswith("SHORT") and not lm.startswith("UNRECOGNISED"):
             chk.disagreements.append({"stream": "robustness", "args": " ".join(args[-5:]), "impl_panicked": ip, "model": lm[:120], "input_class": j["kind"],
                                       "input_hex": j["data"].hex().upper()[:6000]})
+    # ---- the same for the views (unfiltered): the view model ends with `panic` exactly when the binary aborts
+    vj = [(j, r) for j, r in zip(jobs, res) if j["mode"][0] == "view" and not j["opts"] and 64 <= len(j["data"]) < 200000][: (400 if deep else 60)]
+    vlines = ["%s %s - %s" % ({"rdh": "rdh", "its-readout-frames": "frames", "its-readout-frames-data": "data"}[j["mode"][1]], j["src"], j["data"].hex().upper()) for j, _r in vj]
+    nview = 0
+    for (j, (rc, se, dt, args)), lm in zip(vj, core.run_lines(core.FPMODEL, "view", vlines, shards=core.NCPU) if vlines else []):
+        if rc == 1 and "Init processing failed" in se:
+            continue          # refused at start-up (first RDH0): no view at all
+        nview += 1
+        ip = "panicked at" in se
+        mp = "END:panic:" in lm
+        if ip != mp:
+            chk.disagreements.append({"stream": "robustness", "args": " ".join(args[-5:]), "impl_panicked": ip, "model": lm[-120:], "input_class": j["kind"],
+                                      "input_hex": j["data"].hex().upper()[:6000]})
+    chk.cov["views_compared_with_the_view_model"] = nview
     shutil.rmtree(tmp, ignore_errors=True)
     chk.cov["rule"] = ("inputs: pure random bytes (0..5000, also behind a valid RDH0), conforming streams corrupted structure-aware (bit flips, extreme values in every RDH field, words "
                        "deleted / duplicated / swapped / inserted, continuation TDH first, packets spliced across links, sizes inconsistent with content, identifiers overwritten, "
